@@ -265,6 +265,9 @@ class Cx:
             cond = z3.BoolVal(bool(cond))
         r, m, dt, s = solver.check([z3.Not(cond)], timeout_ms=self.qtimeout)
         rec = dict(label=label, verdict=r, secs=round(dt, 4), path=self.npaths)
+        if os.environ.get("DUMP_LABEL") and os.environ["DUMP_LABEL"] in label:
+            with open(os.environ.get("DUMP_FILE", "/tmp/dump.smt2"), "w") as f:
+                f.write(s.to_smt2())
         if detail:
             rec["detail"] = detail
         if r == "sat":
